@@ -130,6 +130,15 @@ CHECKS = {
          "components and the counterfactual-factor factorisation.",
          TRUST + "; data invariants of Variable / Intervention / CounterfactualVariable as axioms of the Variable algebra (y0vc/logic.py var_algebra); trusted mathematics: Correa, Lee & Bareinboim 2022",
          TECH + " (minimisation, district test) + bounded checks against re-implemented definitions and a functional-SCM oracle", "DESIGN.md §5 C19"),
+ "C05": ("other", "Proved for all graphs and node sets (relations, closures, injective selection-node names): get_nodes_to_transport returns exactly the nodes the published derivation marks "
+         "as differing in a source domain -- (De(Z) - W) together with the districts meeting W minus An(W) in G with the edges into Z removed -- and raises only for Intervention objects or "
+         "nodes outside the graph; create_transport_diagram returns the graph plus one fresh selection node T_v with the single edge T_v -> v per marked node; trso_line1 sums over exactly "
+         "the regular (non-selection) nodes other than the outcomes. The TRSO recursion itself (deepcopy of a query record holding a dict of graphs, dict iteration over domains) is outside "
+         "the subset; the numeric clause, the 'same verdict as ID when there is no source domain' clause and 'never fails otherwise' are decided by the labelled bounded stand-in: "
+         "identify_target_outcomes on every ADMG with 2-3 nodes and sampled 4-5 node ADMGs, sampled queries and 0-2 source domains, against a family of exact SCMs in which each source "
+         "domain shares every mechanism with the target except at the nodes of its selection diagram (own implementation of the derivation).",
+         TRUST + "; transport_variable(v) = Variable('T_' + v.name) modelled as an injective function into selection nodes; trusted mathematics: Tikka & Karvanen 2019 (TRSO soundness)",
+         TECH + " (selection diagrams, line 1) + bounded multi-domain exact-SCM evaluation", "DESIGN.md §5 C05"),
 }
 NA = {
  "C07": "not claimed: on the unchanged tree ID* violates the property, under the reading the property itself fixes, on a broad class that no contract within reach delimits -- 305 of 1,318 "
